@@ -110,7 +110,8 @@ pub fn random_walk(
                 Step::Signal { .. } => 2,
                 Step::Abort { .. } => 1,
                 Step::DropStream { .. } => 1,
-                Step::Open { ok: false, .. } => 3,
+                Step::Open { ok: false, .. } => if x.fail_bias { 24 } else { 3 },
+                Step::Open { signal: true, .. } => 2,
                 Step::Call { .. } => 6,
                 _ => 8,
             })
